@@ -146,6 +146,11 @@ def r1(ctx: Ctx) -> RuleReport:
         for st in IN[n]:
             o = ops.get(n)
             if o is None:
+                if st != BAL and st[3][0] == 'one' and node.kind == 'stmt' and node.ast is not None and st[3][1] in assigned_names(node.ast) \
+                        and (n, 'rebind') not in seen_problem:
+                    seen_problem.add((n, 'rebind'))
+                    problems.append((n, f'`{norm(node.ast)[:60]}` re-binds `{st[3][1]}` between its entry in one list and its entry in the other: the marker list is recorded under the '
+                                        f'triple as written, the triple list holds the de-inverted one, so the markers (alignments included) belong to a triple that is not in the graph'))
                 outs.add(st)
             elif st == BAL:
                 outs.add(('pending',) + o)
